@@ -58,7 +58,10 @@ def run(rep):
              'KVxFxVxGx', 'KVxFxSxGx', 'LxFx & LxGx', '(XxFx V LxGx)', 'UVxFxVxFx']
     # targeted near-misses of the quantifier rules (vacuous / re-bound / unbound variables next to a legal binder)
     targeted = ['KVxFxVxFm', 'KVxFmVxFx', 'LxFx & LxFa', 'LxFa & LxFx', 'VxVxFx', 'LxLxFx', 'KVxFxFx', 'LxFx & Fx', 'VxSyFx',
-                'KVxFxVyFx', 'AVxFxSxGm', 'KSxFxVxFm', 'XxFx V LxGa', 'VxKFxVxGx', 'Lx(Fx & LxGx)']
+                'KVxFxVyFx', 'AVxFxSxGm', 'KSxFxVxFm', 'XxFx V LxGa', 'VxKFxVxGx', 'Lx(Fx & LxGx)',
+                # blocks of adjacent quantifiers followed by a sibling that uses one of their variables (scope must END)
+                'KVxVyFxyGx', 'KVxVyFxyGy', 'KVxSyFxyFx', 'AVxVyVzFxGy', 'KVxVyFxyFm', '(LxLyFxy & Gx)', '(LxLyFxy & Gy)',
+                'XxXyx=y V Fx', 'LxXyFxy & Fx', '(LxLyLzFx V Gz)', 'KSxSyFxyVxFx', 'KVxVyFxyVyGy']
     for k, t in enumerate(targeted + valid):
         strs.append({'id': 20_000_000 + k, 'str': t})
     # stress strings: very long tokens and very deep nesting (a parser may refuse them, but only with its parse error)
